@@ -7,6 +7,7 @@ from ..core import s_bool, s_exc
 
 SPECIAL_VALUES = ['a%', 'a_c', '%', '_', "a'b", 'a"b', 'a\\b', 'a+b', 'a(', 'a.b', '[a]', 'get', 'GET', 'Get',
                   '<get>', 'a<b>', '^a$', 'a|b', 'a*']
+GRID_EXTRA = ['a\\', '\\', 'C:\\d', 'a\\%b', 'a\\_b', '%a', '_a', 'a\\\\b', "'", 'a b', 'é']
 
 
 def decide_over(config, sc):
@@ -69,7 +70,38 @@ class BackendDecisionStream(Stream):
         return [dict(base, config='sqlite'), dict(base, config='mongo42'), dict(base, config='memory'),
                 dict(fz, config='mongo42'), dict(fz, config='sqlite')]
 
+    def grid(self):
+        """every special value x string checker x storage family: one allow policy holding the value (plain, embedded,
+        delimiter-wrapped), asked with exactly that value"""
+        def pol(uid, eff, field, e):
+            d = {'uid': uid, 'effect': eff, 'subjects': [['s', 'Max']], 'resources': [['s', 'r']],
+                 'actions': [['s', 'a']], 'context': [], 'description': None, 'tags': ['<', '>']}
+            d[field] = [['s', e]]
+            return d
+        k = 0
+        for v in SPECIAL_VALUES + GRID_EXTRA:
+            for ck in ('CExact', 'CFuzzy', 'CRegex'):
+                for config in ('sqlite', 'sqlite_regexp', 'mongo42', 'redis_json', 'enfold_sqlite'):
+                    field, name = [('subjects', 'subject'), ('resources', 'resource'), ('actions', 'action')][k % 3]
+                    k += 1
+                    e = 'x' + v + 'y' if ck == 'CFuzzy' else v
+                    if '<' in e or '>' in e:
+                        if not (e.count('<') == e.count('>') == 1 and e.index('<') < e.index('>')):
+                            continue
+                        inner = e[e.index('<') + 1:e.index('>')]
+                        if any(c in inner for c in '()[]{}?*+|^$\\.'):
+                            continue
+                        rxt = [[inner, gen.rx_of_literal(inner)]]
+                    else:
+                        rxt = []
+                    inq = {'resource': 'r', 'action': 'a', 'subject': 'Max', 'context': None}
+                    inq[name] = v
+                    yield {'checker': ck, 'policies': [pol('p0', 'allow', field, e), pol('p1', 'allow', field, 'zz')],
+                           'inquiry': inq, 'rxtable': rxt, 'config': config}
+
     def generate(self, rng, tier):
+        for c in self.grid():
+            yield c
         n = 1300 if tier == 'quick' else 12000
         for i in range(n):
             config = storelib.CONFIGS[i % len(storelib.CONFIGS)]
